@@ -58,6 +58,7 @@ def body(chk, db, cfgname):
         wantl = sp.conjugate(uto) if cfgname == "complex" else uto
         site = FP + "::compute:LeftMat"
         probs = []
+        undecided = []
         if not Fm.equal(gotl, wantl):
             probs.append("LeftMat element is %s, expected %s in the %s build" % (gotl, wantl, cfgname))
         if n_[:2] != ln[:2]:
@@ -87,10 +88,16 @@ def body(chk, db, cfgname):
                         if y[0] == "mcall" and y[1] == "Pomerol::Operator::actRight" and len(y) == 4 and y[2] in (("field", FP + "::O", THIS), ("deref", ("field", FP + "::O", THIS)), ("un", "*", ("field", FP + "::O", THIS))) \
                                 and (y[3][:2] == kstate[:2] or y[3] == kfull):
                             good_img = key_contains(full[2], lambda z: z[0] == "mcall" and z[1].split("::")[-1] in ("begin", "cbegin"))
-            if not good_img:
-                probs.append("the row index is not taken from the image O|K> of the source state K")
+            if not good_img and lstate[:2] == kstate[:2]:
+                probs.append("the row index is the position of the source state K itself, not of its image O|K>")
+            elif not good_img:
+                # the image is obtained in some other way (not the first key of O->actRight(K)): whether that way yields
+                # O|K> is not decided here; no alarm without positive evidence
+                undecided.append("the image state of K is not obtained as the first key of O->actRight(K); how it is obtained is not analysed")
         if probs:
             r1.bad(site, f.loc(left[1]), "; ".join(probs), cfgname)
+        elif undecided:
+            r1.unknown(site, f.loc(left[1]), "; ".join(undecided), cfgname)
         else:
             r1.ok(site, f.loc(left[1]), "LeftMat(n,k) = %sU_to(l,n), l = inner(O|K>), k = inner(K)" % ("conj " if cfgname == "complex" else ""), cfgname)
         # right value
@@ -99,6 +106,7 @@ def body(chk, db, cfgname):
         signs = [y for y in _sub(right[2][3]) if y[0] == "var" and y[:2] not in (rcall[3][:2], rcall[4][:2])]
         site = FP + "::compute:RightMat"
         probs = []
+        undecided = []
         if len(signs) != 1:
             probs.append("RightMat element is not sign * U_from(k,m)")
         else:
@@ -107,11 +115,13 @@ def body(chk, db, cfgname):
                 probs.append("RightMat element is %s, expected sign*U_from(k,m)" % Fm.conv(right[2][3]))
             isg = init_of(signs[0])
             if not (isg is not None and key_contains(isg, lambda y: y[0] == "field" and y[1].endswith("::second"))):
-                probs.append("the sign is not the matrix element returned by actRight")
+                undecided.append("the sign is not read from the matrix element returned by actRight; where it comes from is not analysed")
         if rcall[3][:2] != rk_[:2] or rcall[4][:2] != rm[:2] or rk_[:2] != lk[:2]:
             probs.append("RightMat(k,m) is not U_from(k,m) with the same k as LeftMat(.,k)")
         if probs:
             r1.bad(site, f.loc(right[1]), "; ".join(probs), cfgname)
+        elif undecided:
+            r1.unknown(site, f.loc(right[1]), "; ".join(undecided), cfgname)
         else:
             r1.ok(site, f.loc(right[1]), "RightMat(k,m) = sign * U_from(k,m)", cfgname)
         # loops are full
